@@ -105,7 +105,42 @@ impl Prop for C07 {
         let l = pos_val(rng, n);
         let multibyte = s.len() != n || t.len() != t.chars().count();
         let boundary = p <= 1 || p >= n as i64 || l <= 0 || l >= n as i64;
-        let which = rng.usize(22);
+        let which = rng.usize(23);
+        if which == 22 {
+            // a reply typed at INPUT is a string like any other: counted in characters
+            let stmt = "INPUT A$:PRINT \"[\";A$;\"]\";LEN(A$)".to_string();
+            if s.len() > 1000 || n > 255 {
+                ctx.count("unspecified_skipped");
+                return;
+            }
+            let text = format!("{}\n{}", stmt, s);
+            mon::journal(&text);
+            let mut sess = Session::new();
+            sess.drain(8);
+            let mark = sess.mark();
+            sess.enter(&stmt);
+            let st1 = sess.drain(64);
+            if !matches!(st1, Stop::Input(..)) {
+                ctx.violation("no-stop", "str:INPUT:no-prompt", &format!("no prompt: {:?}", st1), &text);
+                return;
+            }
+            sess.enter(&s);
+            let st2 = sess.drain(64);
+            ctx.eval(&text, multibyte);
+            ctx.cover("functions_called", "INPUT-reply");
+            let out = transcript(sess.events_since(mark), Norm::STD);
+            let w = s.trim_matches(' ');
+            let exp = format!("<INPUT \"? \" caps=true>[{}] {} \nREADY.\n<STOPPED>", w, w.chars().count());
+            if st2 != Stop::Stopped || out != exp {
+                ctx.violation(
+                    "wrong-string",
+                    "str:INPUT-reply",
+                    &format!("reply {:?} ({} characters, {} bytes) gave {:?}, expected {:?}", s.chars().take(60).collect::<String>(), n, s.len(), out.chars().take(300).collect::<String>(), exp.chars().take(300).collect::<String>()),
+                    &text,
+                );
+            }
+            return;
+        }
         let (expr, want, name): (String, Want, &str) = match which {
             0 => (format!("LEN({})", lit(&s)), Want::Num(n as i64), "LEN"),
             1 => (
@@ -295,7 +330,9 @@ impl Prop for C07 {
         } else if is_num {
             format!("PRINT {}", expr)
         } else {
-            format!("A$={}:PRINT \"[\";A$;\"]\"", expr)
+            // the target: a string scalar, an array element, or names that are strings by DEFSTR
+            let (pre, tv) = *rng.pick(&[("", "A$"), ("", "A$"), ("", "B$(3)"), ("DEFSTR S:", "S"), ("DEFSTR S:", "S(2)"), ("DEFSTR R-T:", "SUM"), ("DEFSTR A-Z:", "Q1(1,1)")]);
+            format!("{}{}={}:PRINT \"[\";{};\"]\"", pre, tv, expr, tv)
         };
         if stmt.len() > 1000 {
             ctx.count("skipped_line_too_long");
